@@ -75,6 +75,7 @@ pub fn expected_class(n: c_int) -> Class {
 static STORED: AtomicU64 = AtomicU64::new(0);
 static STORED_SIG: AtomicU64 = AtomicU64::new(0);
 static WAKES: AtomicU64 = AtomicU64::new(0);
+static WAKE_ON_CLOSED: AtomicU64 = AtomicU64::new(0);
 
 fn observer(s: u32, a: usize, _b: usize) {
     if s == site::IT_A_STORED {
@@ -82,6 +83,10 @@ fn observer(s: u32, a: usize, _b: usize) {
         STORED_SIG.store(a as u64, Ordering::SeqCst);
     } else if s == site::PIPE_WAKE {
         WAKES.fetch_add(1, Ordering::SeqCst);
+        // the write end must still be open whenever an action of the instance uses it
+        if !crate::sig::fd_open(a as c_int) {
+            WAKE_ON_CLOSED.fetch_add(1, Ordering::SeqCst);
+        }
     }
 }
 
@@ -136,6 +141,21 @@ fn gen_script(rng: &mut Rng, reject: c_int) -> Vec<Step> {
     }
     sc.push(Step::Pending);
     sc
+}
+
+/// A real delivery of a watched signal right when the last owner starts to unregister (IT_DROP_BEGIN).
+fn arm_raise_in_drop(watched: &BTreeSet<c_int>) {
+    director::clear_rules();
+    if let Some(s) = watched.iter().next() {
+        director::set_rule(
+            site::IT_DROP_BEGIN,
+            director::RuleSpec { mode: director::mode::RAISE, nth: 1, arg: *s as usize, ..Default::default() },
+        );
+        director::set_rule(
+            site::UNREG_BEFORE_PUBLISH,
+            director::RuleSpec { mode: director::mode::RAISE, nth: 1, arg: *s as usize, ..Default::default() },
+        );
+    }
 }
 
 /// Runs a script in this (child) process. Returns mismatches.
@@ -241,6 +261,7 @@ where
             }
             Step::DropHandle(k) => {
                 if *k < handles.len() {
+                    arm_raise_in_drop(&watched);
                     let h = handles.remove(*k);
                     let r = catch_unwind(AssertUnwindSafe(move || drop(h)));
                     if r.is_err() {
@@ -253,6 +274,7 @@ where
             }
             Step::DropInstance => {
                 if let Some(d) = inst.take() {
+                    arm_raise_in_drop(&watched);
                     let r = catch_unwind(AssertUnwindSafe(move || drop(d)));
                     if r.is_err() {
                         out.push(format!("step {}: dropping the instance panicked", i));
@@ -318,10 +340,15 @@ where
         }
     }
     // ---- drop everything: registrations gone, pipe closed, foreign registrations intact
+    arm_raise_in_drop(&watched);
     let r = catch_unwind(AssertUnwindSafe(move || {
         drop(handles);
         drop(inst);
     }));
+    director::clear_rules();
+    if WAKE_ON_CLOSED.load(Ordering::SeqCst) > 0 {
+        out.push(format!("an action of the instance tried to wake through its write end {} times after that descriptor had been closed (delivery during the drop of the last owner)", WAKE_ON_CLOSED.load(Ordering::SeqCst)));
+    }
     if r.is_err() {
         out.push("epilogue: dropping the instance / handles panicked".to_string());
     }
@@ -414,6 +441,7 @@ pub fn main(args: &[String]) -> i32 {
                         else if b.contains("add_signal(") { "add-signal-outcome" }
                         else if b.contains("constructor") { "constructor-outcome-or-leftover" }
                         else if b.contains("epilogue: after the instance") { "registration-survives-owner" }
+                        else if b.contains("after that descriptor had been closed") { "wake-after-close" }
                         else if b.contains("descriptors") { "pipe-not-closed" }
                         else if b.contains("foreign") || b.contains("did not make") { "foreign-registration-removed" }
                         else if b.contains("wake bytes") || b.contains("re-adding") { "readd-not-noop" }
